@@ -17,7 +17,7 @@ WRAPS = ["malloc", "realloc", "calloc", "free", "mmap", "munmap", "mprotect", "f
          "open64", "unlink", "close", "syscall"]
 
 WORKLOADS = ["W1x64", "W1x86", "W1a64", "W1r", "W2fin", "W2ser", "W3x64", "W3x86", "W3a64", "W3x64log", "W3a64log",
-             "W4", "W4dual", "W4multi", "W4dualfill", "W4nomemfd", "W4far", "W4fardual", "W5", "W5big", "W5s", "W6", "W7asm", "W7bld", "W7cc", "W8"]
+             "W4", "W4dual", "W4multi", "W4dualfill", "W4nomemfd", "W4far", "W4fardual", "W5", "W5big", "W5s", "W6", "W7asm", "W7bld", "W7cc", "W8", "W9"]
 COLD = ["W4", "W4dual", "W4nomemfd"]          # vm class additionally with NOTHING warmed up (one case per process)
 CLASSES = ["arena", "heap", "vm"]
 
@@ -464,6 +464,34 @@ def _merge_counts(dst, src):
             dst[k] = dst.get(k, 0) + v
 
 
+def ctor_evidence(ctors):
+    """Requests made inside constructors (bracketed by the workloads) and the cases whose refused request was one of them."""
+    per = {}
+    tot = {c: {"requests_inside_constructors_failure_free": 0, "refused_requests_inside_a_constructor": 0,
+               "of_which_the_first_request_of_the_constructor": 0} for c in CLASSES}
+    for (w, name), ent in sorted(ctors.items()):
+        d = {}
+        for i, c in enumerate(CLASSES):
+            if ent["requests"][i] or ent["fired"][i]:
+                d[c] = {"requests": ent["requests"][i], "refused_inside": ent["fired"][i], "refused_its_first_request": ent["fired_first"][i]}
+                tot[c]["requests_inside_constructors_failure_free"] += ent["requests"][i]
+                tot[c]["refused_requests_inside_a_constructor"] += ent["fired"][i]
+                tot[c]["of_which_the_first_request_of_the_constructor"] += ent["fired_first"][i]
+        if d:
+            per["%s %s" % (w, name)] = d
+    return {"refused_requests_per_class": tot, "per_constructor": per}
+
+
+def ctor_first_request_gaps(ctors):
+    """Constructors that make requests of a class in the failure-free run but never had their first request refused."""
+    gaps = []
+    for (w, name), ent in sorted(ctors.items()):
+        for i, c in enumerate(CLASSES):
+            if ent["requests"][i] and not ent["fired_first"][i]:
+                gaps.append("%s %s (%s)" % (w, name, c))
+    return gaps
+
+
 def strmodel_evidence(sm, counts):
     """W8: what the String model observed, from the drivers' own counters."""
     if not sm:
@@ -657,8 +685,22 @@ def run(tier, args):
     request_sites = set()
     errors = {}
     strmodel = {}
+    ctors = {}      # (workload, constructor) -> {"requests": [per class], "fired": [...], "fired_first": [...]}
+    ctor_cases = {c: {"cases_first_refused_request_inside_a_constructor": 0, "of_which_the_first_request_of_that_constructor": 0} for c in CLASSES}
     for res in R.results:
         w, cls, mode = res["workload"], res["class"], res["mode"]
+        if not res.get("_count_only"):
+            for i, c in enumerate(CLASSES):
+                ctor_cases[c]["cases_first_refused_request_inside_a_constructor"] += res.get("ctor_cases", [0, 0, 0])[i]
+                ctor_cases[c]["of_which_the_first_request_of_that_constructor"] += res.get("ctor_cases_first_request", [0, 0, 0])[i]
+        for name, c in res.get("ctors", {}).items():
+            ent = ctors.setdefault((w, name), {"requests": [0, 0, 0], "fired": [0, 0, 0], "fired_first": [0, 0, 0]})
+            if res.get("_count_only") and res.get("seed", chk.seed) == chk.seed:
+                ent["requests"] = [max(a, b) for a, b in zip(ent["requests"], c["requests"])]
+            elif not res.get("_count_only"):
+                # (every child repeats the counting runs: its "requests" are the same numbers again)
+                ent["fired"] = [a + b for a, b in zip(ent["fired"], c["fired"])]
+                ent["fired_first"] = [a + b for a, b in zip(ent["fired_first"], c["fired_first"])]
         if not res.get("_count_only"):
             for k in tot:
                 tot[k] += res.get(k, 0)
@@ -678,6 +720,10 @@ def run(tier, args):
                 ent["workloads"].add(w)
             else:
                 request_sites.add((group_of(w), cname, fn, chain[0] if chain else 0))
+    if not args.replay and scale >= 1:
+        gaps = ctor_first_request_gaps(ctors)
+        if gaps:
+            raise common.HarnessError("the enumeration never refused the first request of: " + ", ".join(gaps))
     distinct_fn = {(g, c, fn) for (g, c, fn, pc) in failing_sites}
     by_class = {}
     for (g, c, fn) in distinct_fn:
@@ -715,6 +761,7 @@ def run(tier, args):
         "first_error_codes_reported": errors,
         "cases_killed_by_sanitizer": len(R.crashes),
         "string_model_workload_W8": strmodel_evidence(strmodel, counts),
+        "constructors": dict(ctor_evidence(ctors), cases_per_class=ctor_cases),
         "child_processes": R.children,
         "exhaustive": False,
     })
@@ -735,6 +782,16 @@ def run(tier, args):
         "a failure-free run on fresh objects that omits exactly those calls; after every refused emit inst_options()==kNone, no extra "
         "register and no inline comment may remain (Assembler, Builder, Compiler; x86-64)",
         "log text is compared in the retry only: logging is best effort and not part of 'the code'",
+        "W9 (objects whose construction met the refused request; W4 likewise for its JitRuntime): JitAllocator x6 CreateParams (default, dual "
+        "mapping, pools|fill|immediate release, dual|fill|custom pattern 128K/128, no padding|pools, dual|pools|immediate|no padding 64K/256), "
+        "JitRuntime x2, CodeHolder()+init(), x86/a64 Assembler/Builder/Compiler constructed with the holder. The workloads bracket constructor "
+        "calls; the evidence counts, per class, the cases whose refused request was inside one and was its first. Afterwards the same calls as "
+        "in the failure-free run (alloc / write / query / shrink / scoped write / release / statistics, add / call / release, emit / bind / "
+        "embed / finalize): an object that is not initialised must refuse (a constructor failure is learnt from is_initialized() and counts as "
+        "reported); then a menu from the case RNG (nothing, reset soft, reset hard, twice, reset-calls-reset, calls-reset-calls-reset-reset), "
+        "recover (reset as documented; a JitAllocator / JitRuntime that is not initialised is reset soft / hard / both or not at all, then "
+        "replaced - there is no re-init API; CodeHolder::init + attach again), the same calls again, destruction. Not called on an empty "
+        "CodeHolder: new_section / new_label_id (they do not look at is_initialized() on a fresh holder either)",
         "W8 (String / StringTmp<32|256> / ArenaString<16|32|64> against a std::string model): after kOk the object holds the model's content; after "
         "an error it holds what it held before the call (string.cpp obtains the new buffer before it touches the old one) - except a failed "
         "assign_format(), whose content is accepted as unspecified because _op_vformat() formats in place first; in every case data() != null, "
